@@ -155,6 +155,18 @@ class FlowMixin:
             if cstep is not None and cstep > 0 and ll is not None:
                 self.add_fact(st, lin_add(Lin({nm: 1}, 0), ll, -1), ">=0")
             return Sym(nm, "int", rng=rng, role=("range-index", k))
+        if isinstance(v, Sym) and v.ty == "repseq":
+            el = [norm(x) for x in v.attrs["elems"]]
+            if el and all(isinstance(x, Const) and isinstance(x.v, int) and not isinstance(x.v, bool) for x in el):
+                vals = sorted({x.v for x in el})
+                nm = st.fresh_name("elem")
+                rngs = dict(st.extra.get("symrng", {}))
+                rngs[nm] = (vals[0], vals[-1])
+                st.extra["symrng"] = rngs
+                return Sym(nm, "int", rng=(vals[0], vals[-1]), oneof=tuple(vals))
+            if len(el) == 1:
+                return el[0]
+            return Unknown(why="iter item")
         if isinstance(v, Sym) and v.ty == "enumerate":
             nm = st.fresh_name("idx")
             rngs = dict(st.extra.get("symrng", {}))
